@@ -2,7 +2,7 @@
 From Coq Require Import List NArith ZArith Bool.
 From N0 Require Import Base.PyStr Base.PyVal Xpath.Dec Xpath.DecProofs Xpath.Token Xpath.TokenProofs
   Xpath.Find Xpath.FindProofs Xpath.Write Xpath.SpecProofs Xpath.WalkProofs Xpath.TokenizeProofs Xpath.EnumProofs
-  Xpath.FstrProofs Xpath.CreateProofs Xpath.AppendProofs.
+  Xpath.FstrProofs Xpath.CreateProofs Xpath.AppendProofs Xpath.BlankBracketProofs.
 Import ListNotations.
 
 (* d["P/n1/.../nk"] = v, where P spells an existing dictionary and n1 is a fresh name in it
@@ -114,3 +114,20 @@ Theorem C03_nonvacuous :
     plain_key n1 /\ lookup n1 kvs = None.
 Proof. exact create_example. Qed.
 Print Assumptions C03_nonvacuous.
+
+(* white space between the name of a step and its bracket is not part of the name: 'b [new()]', 'b  [0]' are read
+   exactly as 'b[new()]', 'b[0]' (any name without '[', any run of white space, anything between the brackets), so
+   a creating path spelled with such blanks creates / appends under the same key.  (Step level: every resolver and
+   writer of the model reads a step through split_name_index only.) *)
+Theorem C03_blank_before_bracket_same_step :
+  forall k bl r,
+  mem_chr c_lb k = false -> Forall (fun c => mem_chr c py_ws = true) bl ->
+  split_name_index (k ++ bl ++ c_lb :: r ++ [c_rb]) = split_name_index (k ++ c_lb :: r ++ [c_rb]).
+Proof. exact sni_blank_before_bracket. Qed.
+Print Assumptions C03_blank_before_bracket_same_step.
+
+Theorem C03_blank_before_bracket_example :
+  split_name_index ([98; 32; 91; 110; 101; 119; 40; 41; 93])%N = split_name_index ([98; 91; 110; 101; 119; 40; 41; 93])%N
+  /\ split_name_index ([98; 32; 91; 110; 101; 119; 40; 41; 93])%N = Ok ([98]%N, IdxStr [110; 101; 119; 40; 41]%N).
+Proof. exact blank_before_bracket_example. Qed.
+Print Assumptions C03_blank_before_bracket_example.
